@@ -43,13 +43,15 @@ var (
 		`\x1d`, " ",
 
 		// Remove basic rules from abstractions/base
-		`(?m)^.*/etc/[^/]+\.so.*$`, ``,
-		`(?m)^.*/usr/(lib|lib32|lib64|libexec)/[^/]+\.so.*$`, ``,
-		`(?m)^.*/usr/(lib|lib32|lib64|libexec)/locale/.*$`, ``,
-		`(?m)^.*/usr/share/locale[^/]?/.*$`, ``,
-		`(?m)^.*/usr/share/zoneinfo[^/]?/.*$`, ``,
-		`(?m)^.*/dev/(null|zero|full|log).*$`, ``,
-		`(?m)^.*/dev/(u|)random.*$`, ``,
+		// (the path the record is about, from its first character: not a longer
+		// path, another field or a path that merely contains one of these)
+		`(?m)^.* name="/etc/[^/"]+\.so[^"]*".*$`, ``,
+		`(?m)^.* name="/usr/(lib|lib32|lib64|libexec)/[^/"]+\.so[^"]*".*$`, ``,
+		`(?m)^.* name="/usr/(lib|lib32|lib64|libexec)/locale/[^"]*".*$`, ``,
+		`(?m)^.* name="/usr/share/locale[^/"]?/[^"]*".*$`, ``,
+		`(?m)^.* name="/usr/share/zoneinfo[^/"]?/[^"]*".*$`, ``,
+		`(?m)^.* name="/dev/(null|zero|full|log)".*$`, ``,
+		`(?m)^.* name="/dev/(u|)random".*$`, ``,
 	})
 	regResolveLogs = util.ToRegexRepl([]string{
 		// Resolve user variables
